@@ -42,6 +42,12 @@ func genC18(g *gen) {
 		for gi := 0; gi < ng; gi++ {
 			lv := nv // variables are numbered per goroutine after the shared prefix
 			var steps []string
+			// cold start: the first thing every goroutine does is a tensor-scalar operation on a private tensor of its
+			// own element size - the first use of a lazily initialised per-size resource (scalar pools) then happens
+			// concurrently in the first set a process runs
+			cdt := []string{"u8", "i16", "f32", "f64", "c128"}[gi%5]
+			steps = append(steps, fmt.Sprintf("new %s 2 C", cdt), fmt.Sprintf("bin add fn $%d #k3", lv), fmt.Sprintf("dump $%d", lv+1))
+			lv += 2
 			nsteps := 3 + g.r.intn(6)
 			for s := 0; s < nsteps; s++ {
 				sv := shared[g.r.intn(len(shared))]
